@@ -228,6 +228,7 @@ func raceClass(sig string) string {
 }
 
 func e2eThreads(c *e2eCtx) error {
+	c.threadsSingleFile()
 	sink := &c08Sink{m: map[string]*c08Entry{}}
 	nProj := 2
 	if c.thorough() {
@@ -642,4 +643,75 @@ func (c *e2eCtx) runThrGrid(u *thrUnit, r *rand.Rand, sink *c08Sink) {
 		u.cleanBase = u.trackRef
 	}
 	runStage("clean", "", u.cleanBase)
+}
+
+
+// threadsSingleFile: the smallest pool there is — exactly ONE changed file (a large entry file).
+// With one task the pools' bookkeeping (wait groups, result channels, early exits) has no other
+// worker to hide behind: the tree of every thread count must equal the tree of threads = 1.
+func (c *e2eCtx) threadsSingleFile() {
+	var b strings.Builder
+	b.WriteString("package main\n\nimport \"fmt\"\n\nfunc main() {\n\ttotal := 0\n")
+	for i := 0; i < 400; i++ {
+		fmt.Fprintf(&b, "\ttotal += step%d(total)\n", i%7)
+	}
+	b.WriteString("\tfmt.Println(total)\n}\n")
+	for i := 0; i < 7; i++ {
+		fmt.Fprintf(&b, "\nfunc step%d(x int) int {\n\tx += %d\n\treturn x %% 1000\n}\n", i, i+1)
+	}
+	newMain := b.String()
+	oldMain := strings.Replace(newMain, "x += 3", "x += 30", 1)
+	base := filepath.Join(c.work, "single")
+	defer os.RemoveAll(base)
+	tree := func(m string) map[string]string {
+		return map[string]string{"go.mod": "module " + proj.Module + "\n\ngo 1.23\n", "main.go": m}
+	}
+	oldRev, err := proj.InitRepo(base, tree(oldMain), 1700000000)
+	if err != nil {
+		c.violate("", "harness: "+err.Error(), nil)
+		return
+	}
+	if _, err := proj.Commit(base, tree(newMain), 1700000100, "new"); err != nil {
+		c.violate("", "harness: "+err.Error(), nil)
+		return
+	}
+	var ref map[string]string
+	for _, prec := range []int{1, 2, 3} {
+		for _, th := range []int{1, 2, 4, 16} {
+			for rep := 0; rep < 3; rep++ {
+				if th == 1 && rep > 0 {
+					continue
+				}
+				d := filepath.Join(c.work, fmt.Sprintf("single-%d-%d-%d", prec, th, rep))
+				if err := cpA(base, d); err != nil {
+					c.violate("", "harness: "+err.Error(), nil)
+					return
+				}
+				cfg := proj.DefaultConfig(oldRev)
+				cfg.Precision, cfg.Threads, cfg.Granularity = prec, th, "line"
+				proj.WriteConfig(d, cfg)
+				run := proj.RunGoat(c.goat, d, nil, "track")
+				t := proj.ReadTree(d)
+				delete(t, "goat.yaml")
+				os.RemoveAll(d)
+				c.mu.Lock()
+				c.res.Evaluations++
+				c.mu.Unlock()
+				c.count("single-file:track")
+				if run.Exit != 0 {
+					c.violate("C08", fmt.Sprintf("single changed file: goat track threads=%d precision=%d exits %d: %s", th, prec, run.Exit, lastLine(run.Stderr)), map[string]any{"threads": th, "precision": prec})
+					return
+				}
+				if th == 1 {
+					ref = t
+					continue
+				}
+				if dd := diffTrees(ref, t); len(dd) > 0 {
+					c.violate("C08", fmt.Sprintf("single changed file: goat track threads=%d precision=%d leaves a tree that differs from the threads=1 tree at %v", th, prec, dd[:min(3, len(dd))]),
+						map[string]any{"threads": th, "precision": prec, "main_go": t["main.go"]})
+					return
+				}
+			}
+		}
+	}
 }
